@@ -1274,9 +1274,44 @@ class Exec:
             d[kk] = self.eval(v, st)
         return st.alloc(self.c, PyDict(d))
 
+    def _nested_comp(self, node, st):
+        """[elt for a in A for b in B(a) ...]: every generator over a sequence of concrete length, filters concrete"""
+        out = []
+        saved = dict(st.env)
+        names = []
+
+        def rec(gi):
+            if gi == len(node.generators):
+                out.append(self.eval(node.elt, st))
+                return
+            g = node.generators[gi]
+            names.extend(_target_names(g.target))
+            lo, hi, elem = self.iter_info(g.iter, st, node)
+            clo, chi = conc_int(lo), conc_int(hi)
+            if clo is None or chi is None:
+                raise Unsupported('nested comprehension over a sequence of symbolic length')
+            for k in range(clo, chi):
+                self.assign(g.target, elem(k, st) if elem else k, st, node)
+                ok = True
+                for cnd in g.ifs:
+                    t = self.truth(self.eval(cnd, st), st)
+                    if t is False:
+                        ok = False
+                    elif t is not True:
+                        raise Unsupported('comprehension filter on symbolic condition')
+                if ok:
+                    rec(gi + 1)
+        rec(0)
+        for n in names:
+            if n in saved:
+                st.env[n] = saved[n]
+            else:
+                st.env.pop(n, None)
+        return st.alloc(self.c, PyList(out))
+
     def ev_ListComp(self, node, st):
         if len(node.generators) != 1:
-            raise Unsupported('nested comprehension')
+            return self._nested_comp(node, st)
         g = node.generators[0]
         lo, hi, elem = self.iter_info(g.iter, st, node)
         clo, chi = conc_int(lo), conc_int(hi)
